@@ -165,7 +165,7 @@ func opSequence(c *Ctx, sh *shared, dir string, sc scenario) {
 	remote, types, wtype, n := "None", CoqList([]string{HxS("emit")}), HxS("emit"), 7
 	if sc.Kind != "local" {
 		remote = fmt.Sprintf("(Some (%s, %s))", HxS(e.target), HxS("emit"))
-		types, wtype = "[]", HxS("remote")
+		wtype = HxS("remote")
 	}
 	scTerm := fmt.Sprintf("(mkSc 1 %s %s false %s %s [] true 4242 %s true)", wtype, remote, HxS("RUNIT001"), HxS("input\n"), types)
 	ts := make([]string, len(tags))
